@@ -754,3 +754,56 @@ Proof.
   induction e; intros o H; simpl in H; try discriminate; try (destruct o; reflexivity).
   simpl. now apply IHe.
 Qed.
+
+(* ---------------------------------------------------------------- entry points WITHOUT random choices *)
+(* the option sets under which the decompositions make no random choice: not the random initialisation, not the
+   randomized SVD, and no mode shorter than the rank (CP's SVD initialisation pads such a mode with random columns) *)
+Definition no_random_choice (o : opts) : bool :=
+  match o_init o with IRandom => false | _ => true end &&
+  match o_svd o with SRandomized => false | _ => true end &&
+  forallb (fun d => Nat.leb (o_rank o) d) (o_shape o).
+
+Fixpoint deterministic_family (e : ep) : bool :=
+  match e with
+  | E_svd_interface
+  | E_initialize_cp | E_parafac | E_nn_parafac | E_nn_parafac_hals | E_constrained_parafac
+  | E_initialize_tucker | E_partial_tucker | E_tucker | E_nn_tucker | E_nn_tucker_hals
+  | E_parafac2 | E_rng_free => true
+  | E_estimator e' => deterministic_family e'
+  | _ => false
+  end.
+
+Lemma draw_free_seqs_map_in : forall (A : Type) (f : A -> skel) l,
+  (forall d, In d l -> draw_free (f d) = true) -> draw_free (seqs (map f l)) = true.
+Proof.
+  intros A f l H. induction l; simpl; auto.
+  rewrite (H a (or_introl eq_refl)). apply IHl. intros d Hd. apply H. now right.
+Qed.
+
+Lemma draw_free_svd_interface : forall m mask nrep, m <> SRandomized -> draw_free (sk_svd_interface m mask nrep) = true.
+Proof. intros [] [] nrep H; try reflexivity; congruence. Qed.
+
+Lemma draw_free_cp_modes : forall (a : argexp) sv mk nr rk sh,
+  sv <> SRandomized -> forallb (fun d => Nat.leb rk d) sh = true ->
+  draw_free (seqs (map (fun d => Seq (Call a (sk_svd_interface sv mk nr)) (if Nat.ltb d rk then Draw 1 else Skip)) sh)) = true.
+Proof.
+  intros a sv mk nr rk sh Hs Hr. apply draw_free_seqs_map_in. intros d Hd.
+  rewrite forallb_forall in Hr. specialize (Hr d Hd). apply Nat.leb_le in Hr.
+  cbn [draw_free]. rewrite (draw_free_svd_interface sv mk nr Hs).
+  destruct (Nat.ltb d rk) eqn:E; [apply Nat.ltb_lt in E; lia | reflexivity].
+Qed.
+
+Theorem deterministic_draw_free : forall e o,
+  deterministic_family e = true -> no_random_choice o = true -> draw_free (skeleton e o) = true.
+Proof.
+  induction e; intros o F N; simpl in F; try discriminate;
+    try (simpl; now apply IHe);
+    destruct o as [sh rk ini sv mk nr it ax]; unfold no_random_choice in N; simpl in N;
+    apply andb_true_iff in N as [N Hr]; apply andb_true_iff in N as [Hi Hs];
+    assert (Hsv : sv <> SRandomized) by (destruct sv; simpl in Hs; congruence);
+    destruct ini; simpl in Hi; try discriminate; simpl; unfold order; simpl;
+    repeat rewrite (draw_free_svd_interface sv _ _ Hsv);
+    repeat rewrite draw_free_cp_modes by assumption;
+    try reflexivity.
+  all: destruct sv; try (exfalso; apply Hsv; reflexivity); try destruct mk; reflexivity.
+Qed.
